@@ -427,7 +427,8 @@ def run_registry(spec, ctx):
     from cardillo import System
     from cardillo.discrete import PointMass
     rng = ctx.rng
-    pool = ["a", "b", "a_contr3", "a_contr4", "contr2", "contr3", "b_contr2", None, None]
+    pool = ["a", "b", "a_contr3", "a_contr4", "contr2", "contr3", "b_contr2", None, None, None,
+            "contr4", "contr5", "contr6", "contr7", "contr8", "contr9"]          # (names of the automatic form contr<N> given by the user)
     hists = []
     nontrivial = False
     for _ in range(spec["batch"]):
